@@ -58,8 +58,16 @@ fn spec_for(kind: Kind, label: &str, mint: &str, dec: u8, usd: i64) -> BankSpec 
 }
 
 fn scene(asset_kind: Kind, liab_kind: Kind, tag: &str) -> Scene {
+    scene_with_max_age(asset_kind, liab_kind, tag, 120)
+}
+
+/// `max_age`: the banks' configured maximum oracle age in seconds (the program's own default for Pyth, 60 s, lies
+/// between the two values used)
+fn scene_with_max_age(asset_kind: Kind, liab_kind: Kind, tag: &str, max_age: u16) -> Scene {
     let mut a = spec_for(asset_kind, "OA", "c09a", if asset_kind == Kind::Staked { 9 } else { 6 }, 4);
     let mut l = spec_for(liab_kind, "OL", "c09l", 9, 25);
+    a.config.oracle_max_age = max_age;
+    l.config.oracle_max_age = max_age;
     let a2 = spec_for(Kind::Pyth, "OA2", "c09a2", 6, 1);
     if asset_kind == Kind::Staked {
         l.config.asset_tag = marginfi_type_crate::constants::ASSET_TAG_SOL;
@@ -394,12 +402,25 @@ fn venue_sweep(t: &mut Tally) {
                     (OracleSetup::DriftPythPull, marginfi_type_crate::constants::ASSET_TAG_DRIFT, Acct::new(1, d, drift_mocks::ID))
                 }
             };
-            s0.set(venue_k, acct_data);
+            s0.set(venue_k, acct_data.clone());
             world::edit_bank(&mut s0, &w.banks[0].key, |b| {
                 b.config.oracle_setup = setup;
                 b.config.oracle_keys[1] = venue_k;
                 b.config.asset_tag = tag;
             });
+            // an account of the same venue program with the same bytes at another address, offered in the place of the
+            // configured reserve / market: the price must not come from it (the reference sees no usable venue account)
+            {
+                let k2 = key("c09:venue_account:elsewhere");
+                let mut s = s0.clone();
+                s.set(k2, acct_data);
+                forge_positions(&mut s, &acct, (w.banks[0].key, 1000 * 10i128.pow(6)), Some((w.banks[1].key, 3 * 10i128.pow(9))));
+                let p = pulse(w, &s, &acct, Some((venue_k, k2)));
+                let mut rs = s.clone();
+                rs.accts.remove(&venue_k);
+                t.cells += 1;
+                judge_pulse(&format!("venue:{venue}:other_venue_account"), w, &rs, &acct, &p, &json!({"model": "C09V", "venue": venue, "rate": [rn, rd], "substitute": "same bytes at another address"}), t);
+            }
             for price in [123_456_789i64, 40_000_000_000] {
                 for (conf_pp, ema_conf_pp) in [(0u64, 0u64), (100, 2000), (2000, 100), (1000, 1000), (2358, 2359)] {
                     for (en, ed) in [(1i64, 1i64), (1, 2), (2, 1)] {
@@ -597,10 +618,10 @@ fn with_replace(mut i: crate::svm::Ix, rep: Option<(Pubkey, Pubkey)>) -> crate::
 }
 
 fn decision_matrix(_tier: Tier, t: &mut Tally) {
-    let kinds = [(Kind::Pyth, Kind::Pyth), (Kind::Swb, Kind::Swb), (Kind::Fixed, Kind::Pyth), (Kind::Pyth, Kind::Fixed), (Kind::Staked, Kind::Pyth)];
+    let kinds = [(Kind::Pyth, Kind::Pyth, 120u16), (Kind::Swb, Kind::Swb, 120), (Kind::Fixed, Kind::Pyth, 120), (Kind::Pyth, Kind::Fixed, 120), (Kind::Staked, Kind::Pyth, 120), (Kind::Pyth, Kind::Pyth, 30), (Kind::Swb, Kind::Swb, 30), (Kind::Staked, Kind::Pyth, 30)];
     let conds = [Cond::Fresh, Cond::AgeAtLimit, Cond::AgeOverLimit, Cond::WrongOwner, Cond::BadDiscriminator, Cond::PartialVerification, Cond::ConfJustUnderMax, Cond::ConfJustOverMax, Cond::ZeroPrice, Cond::ZeroPriceWithConf, Cond::NegativePrice, Cond::ZeroEma, Cond::ImpostorAtAnotherAddress, Cond::StakedMintImpostor, Cond::StakedPoolImpostor, Cond::StakedZeroSupply, Cond::FixedZero];
-    for (ki, (ak, lk)) in kinds.iter().enumerate() {
-        let sc = scene(*ak, *lk, &format!("d{ki}"));
+    for (ki, (ak, lk, max_age)) in kinds.iter().enumerate() {
+        let sc = scene_with_max_age(*ak, *lk, &format!("d{ki}"), *max_age);
         let w = &sc.w;
         let healthy = portfolio_healthy(&sc);
         let acct = w.users[0].account;
